@@ -15,6 +15,15 @@ RULE = ('into_bench on (a) every CircuitAPI transition ending in into_bench, (b)
 ASSUMPTIONS = ['circuits have at least one input whenever they contain a constant (outside that the call may raise)']
 
 
+def design(tier, seed):
+    from .. import tlc
+
+    r = tlc.run_model('GateLemmas', 'GateLemmas.cfg', workers=8, tag='C14-lemma', xmx='4g')
+    tlc.cleanup(r['workdir'])
+    return {'states': r['distinct'], 'transitions': r['generated'],
+            'runs': [f'GateLemmas.RewriteKeeps (bench rewrite table denotes GateFn, all argument tuples): {r["distinct"]} states, {r["wall_s"]:.1f}s']}
+
+
 def sources(tier, seed, ctx):
     rng = random.Random(seed + 14)
     note = []
